@@ -2,6 +2,7 @@ package absint
 
 import (
 	"fmt"
+	"go/types"
 	"sort"
 	"strings"
 )
@@ -172,9 +173,143 @@ func (a *Analyzer) renderAtom(at *Atom) string {
 			return fmt.Sprintf("%s(%s,%d)", at.Op, a.Render(at.Args[0]), at.Aux)
 		}
 	case "len":
+		if n, ok := a.AtomNames[at]; ok {
+			return "$" + n
+		}
 		return "len:" + at.Desc
 	}
+	if n, ok := a.AtomNames[at]; ok {
+		return "$" + n
+	}
 	return "?"
+}
+
+// NameFields gives the current values of the fields reachable from p (a pointer to a struct) symbolic
+// names, so that Render describes values computed from them ($Field, bits($Field,15,8), len($Body) …).
+// Used for writer-side layout extraction (encoders).
+func (a *Analyzer) NameFields(st *State, p Term, pt types.Type, prefix string, depth int) {
+	ptr, ok := p.(*Ptr)
+	if !ok || depth > 3 {
+		return
+	}
+	pp, ok := pt.Underlying().(*types.Pointer)
+	if !ok {
+		return
+	}
+	stt, ok := pp.Elem().Underlying().(*types.Struct)
+	if !ok {
+		return
+	}
+	if a.AtomNames == nil {
+		a.AtomNames = map[*Atom]string{}
+		a.BaseNames = map[*Base]string{}
+	}
+	for i := 0; i < stt.NumFields(); i++ {
+		f := stt.Field(i)
+		name := prefix + f.Name()
+		if _, isStruct := f.Type().Underlying().(*types.Struct); isStruct {
+			fp, fpt := a.FieldPtr(ptr, pt, f.Name())
+			if fp != nil {
+				pre := name + "."
+				if f.Embedded() {
+					pre = prefix
+				}
+				a.NameFields(st, fp, fpt, pre, depth+1)
+			}
+			continue
+		}
+		v, ft := a.LoadField(st, ptr, pt, f.Name())
+		switch x := v.(type) {
+		case Int:
+			if at := x.L.SingleAtom(); at != nil && x.L.Coef(at) == 1 && x.L.C == 0 {
+				a.AtomNames[at] = name
+			}
+		case *Slice:
+			a.BaseNames[x.Base] = name
+			x.Base.Desc = "$" + name
+			if at := x.Len.SingleAtom(); at != nil {
+				a.AtomNames[at] = "len(" + name + ")"
+			}
+		case *Ptr:
+			x.NilUnk = false
+			a.NameFields(st, x, ft, name+".", depth+1)
+		}
+	}
+}
+
+// BitPart is one operand of an OR-composition: Val << Shift.
+type BitPart struct {
+	Val   Term
+	Shift int64
+}
+
+// OrParts decomposes t = (v1 << s1) | (v2 << s2) | … (conversions stripped); ok=false if t has another shape.
+func OrParts(t Term) ([]BitPart, bool) {
+	iv, ok := t.(Int)
+	if !ok {
+		return nil, false
+	}
+	if iv.L.IsConst() {
+		return []BitPart{{Val: iv, Shift: 0}}, true
+	}
+	if len(iv.L.Ts) == 1 && iv.L.C == 0 {
+		at, coef := iv.L.Ts[0].A, iv.L.Ts[0].Coef
+		if coef != 1 {
+			// linearised shift: coef must be a power of two
+			sh := int64(0)
+			for c := coef; c > 1; c >>= 1 {
+				if c&1 != 0 {
+					return nil, false
+				}
+				sh++
+			}
+			if coef < 1 {
+				return nil, false
+			}
+			ps, ok := OrParts(Int{AtomLin(at)})
+			if !ok {
+				return nil, false
+			}
+			for i := range ps {
+				ps[i].Shift += sh
+			}
+			return ps, true
+		}
+		switch at.Op {
+		case "or":
+			var out []BitPart
+			for _, x := range at.Args {
+				ps, ok := OrParts(x)
+				if !ok {
+					return nil, false
+				}
+				out = append(out, ps...)
+			}
+			return out, true
+		case "shl":
+			k, isK := at.Args[1].(Int)
+			if !isK || !k.L.IsConst() {
+				return nil, false
+			}
+			ps, ok := OrParts(at.Args[0])
+			if !ok {
+				return nil, false
+			}
+			for i := range ps {
+				ps[i].Shift += k.L.C
+			}
+			return ps, true
+		case "conv":
+			// widening conversions keep the value
+			if x, isI := at.Args[0].(Int); isI {
+				if xa := x.L.SingleAtom(); xa != nil && xa.HasHi && at.HasHi && xa.Hi <= at.Hi && xa.HasLo && xa.Lo >= 0 {
+					return OrParts(x)
+				}
+			}
+		}
+		return []BitPart{{Val: iv, Shift: 0}}, true
+	}
+	return nil, false
 }
 
 // bitField renders (x >> shift) & mask as bits(X,hi,lo) when mask is a run of ones.
@@ -248,6 +383,11 @@ func (a *Analyzer) renderSlice(s *Slice) string {
 		return "sprintf(" + strings.TrimPrefix(b.Op, "sprintf:") + ")"
 	case b.Op != "":
 		return b.Op + "(…)"
+	}
+	if n, ok := a.BaseNames[b]; ok && s.Off.IsConst() && s.Off.C == 0 {
+		if at := s.Len.SingleAtom(); at != nil && a.AtomNames[at] == "len("+n+")" {
+			return "$" + n
+		}
 	}
 	return fmt.Sprintf("bytes(%s@%s+%s)", baseName(b), a.renderLin(s.Off), a.renderLin(s.Len))
 }
